@@ -901,6 +901,24 @@ func (r *RigS) noteOverlap(key string) {
 		r.st.Overlap[r.sc.Ops[r.st.InFlight].Task] = true
 		r.s.Probe("background_transition_overlaps_request")
 	}
+	startedByReload := false
+	for _, st := range r.mq.All {
+		if st.PCh == replicateChan && st.VCh == replicateChan+"_"+id+"v0" {
+			startedByReload = true
+		}
+	}
+	if id != "" && !r.isReloaded() && startedByReload {
+		// the start-up reload is the request in flight: it starts the stored tasks one after the other, and a task it has
+		// already started stops itself (a failure) while the reload is starting the next ones on the same downstream
+		if t := r.st.Tasks[id]; t != nil && t.Spec != nil {
+			for id2, t2 := range r.st.Tasks {
+				if t2.Spec != nil && t2.Spec.tgt() == t.Spec.tgt() {
+					r.st.Overlap[id2] = true
+				}
+			}
+			r.s.Probe("background_transition_overlaps_reload")
+		}
+	}
 }
 
 // notePositionRMW watches the read-modify-write cycles on checkpoint records: two cycles on one record that overlap
@@ -1000,6 +1018,25 @@ func (r *RigS) onAckData(tgt int, channel string, endSeq int, names []string) {
 				}
 				if !gave {
 					continue
+				}
+				if !st.Closed {
+					// the current registration handed a pack with this end id out as well. Writes of one channel are made in
+					// order: if an EARLIER data pack of the current registration is still unacknowledged, the pack acknowledged
+					// now is not the current registration's - it is the copy an earlier registration had computed
+					earlierUnacked := false
+					for _, dp := range st.Delivered {
+						if dp.EndSeq >= endSeq {
+							break
+						}
+						for _, e := range dp.Entries {
+							if (e.Kind == "ins" || e.Kind == "del") && e.Coll == c.ID && e.Shard == shard && !r.ackedLocked(tgt, e.Tag) {
+								earlierUnacked = true
+							}
+						}
+					}
+					if earlierUnacked {
+						continue // look at the registrations before this one
+					}
 				}
 				// ... and its task was resumed in between (a write that merely follows a pause is not this case)
 				resumed := false
